@@ -376,7 +376,7 @@ Qed.
 
 Theorem qstep_inv w o : QInv w -> op_ok w o -> QInv (fst (fst (fst (qstep w o)))).
 Proof.
-  intros HI Hop. destruct o as [j|id|id|m|t|n|n|n|f| |id|]; simpl.
+  intros HI Hop. destruct o as [j|id|id|m|t|n|n|n|f| |id| |id]; simpl.
   - (* create *)
     set (j' := mkQJ _ _ _ _ _ _ _ _ _). apply qinv_with_api; auto.
     + apply set_job_ids_nodup, HI.
@@ -424,6 +424,17 @@ Proof.
     destruct H1 as [I1 I2 I3 I4]. rewrite Hp in I2. unfold replay in I2. simpl in I2.
     constructor; simpl; auto.
     + rewrite I2, <- acount_filter. lia.
+  - (* touch *)
+    destruct (find_job id (qa_jobs w)) as [a|] eqn:Ef; simpl; auto.
+    set (a'' := mkQJ _ _ _ _ _ _ _ _ _) in *.
+    assert (Hd : delta (EUpd a a'') = 0) by (apply delta_upd_same_activity; reflexivity).
+    assert (Ho : owned_active a'' = owned_active a) by reflexivity.
+    destruct (find_job_in _ _ _ Ef) as [_ Hid].
+    apply qinv_with_api; auto.
+    + apply set_job_ids_nodup, HI.
+    + rewrite Hd. lia.
+    + rewrite acount_set_job by apply HI. change (q_id a'') with (q_id a). rewrite Hid, Ef, Hd, Ho.
+      pose proof (qi_phi w HI). lia.
 Qed.
 
 (** * histories *)
